@@ -58,7 +58,7 @@ pub fn run(ctx: &Ctx) {
          with an independent tokenizer, every key generated so far (and every initial key) is present, its private key unlocks under its own password (reference unlock) to the key whose public \
          key is listed; at the end encrypt/decrypt between pairs of names with the real binary. distinct_nontrivial counts distinct (initial state, step index) observations",
     );
-    let histories = ctx.tier.pick(24, 112);
+    let histories = ctx.tier.pick(32, 144);
     par_for(histories, crate::util::ncpu(), |h| {
         let mut rng = Rng::fork(ctx.seed, &format!("C14-{}", h));
         let wd = WorkDir::new("c14");
@@ -103,10 +103,29 @@ pub fn run(ctx: &Ctx) {
             states.push(("keyring padded to just under 4 MiB", Some(pad_to(1 << 22, &mut rng)), vec![&init0]));
             states.push(("keyring padded to just under 16 MiB", Some(pad_to(1 << 24, &mut rng)), vec![&init0]));
         }
+        // F reached through symbolic links
+        states.push(("symlink to an existing keyring (relative target)", Some(init0.entry(true)), vec![&init0]));
+        states.push(("symlink to an existing keyring (absolute target)", Some(format!("{}\n{}", init0.entry(true), init1.entry(false))), vec![&init0, &init1]));
+        states.push(("symlink to an existing keyring via a second link", Some(init0.entry(true)), vec![&init0]));
+        states.push(("symlink whose target does not exist yet", None, vec![]));
         let (sname, init, init_ids) = &states[h % states.len()];
         let f = wd.file("keyring.txt");
         if let Some(text) = init {
             std::fs::write(&f, text).unwrap();
+        }
+        if sname.starts_with("symlink") {
+            use std::os::unix::fs::symlink;
+            let real = wd.file("real-keyring.txt");
+            if init.is_some() {
+                std::fs::rename(&f, &real).unwrap();
+            }
+            let target = if sname.contains("absolute") { real.clone() } else { std::path::PathBuf::from("real-keyring.txt") };
+            if sname.contains("via a second link") {
+                symlink(&target, wd.file("mid-link")).unwrap();
+                symlink("mid-link", &f).unwrap();
+            } else {
+                symlink(&target, &f).unwrap();
+            }
         }
         // thorough: one history in five is long (45 generations cross the 8 KiB mark from an empty file)
         let nsteps = if ctx.tier == crate::ctx::Tier::Thorough && h % 5 == 4 { 45 } else { 1 + (h / states.len()) % 6 };
@@ -261,6 +280,9 @@ pub fn run(ctx: &Ctx) {
             if before.as_ref().map(|b| b.len().next_power_of_two() != after.len().next_power_of_two() && b.len() > 100_000).unwrap_or(false) {
                 ctx.seen("step that carries the file across a power-of-two size above 100 kB");
             }
+            if sname.starts_with("symlink") {
+                ctx.seen("step through a symbolic link: prefix kept, parses, keys usable");
+            }
             ctx.seen(&format!("step into {}: prefix kept, parses, {} keys usable", state_key, expect.len().min(7)));
             ctx.distinct(&format!("{}|step{}|of{}", sname, si, nsteps));
             if h == 3 && si == nsteps - 1 {
@@ -313,6 +335,7 @@ pub fn run(ctx: &Ctx) {
     crate::ttylanes::c14(ctx);
     ctx.require("tty: three typed generations into one file, all keys usable", 3);
     ctx.require("step that carries the file across a power-of-two size", 3);
+    ctx.require("step through a symbolic link", 4);
     ctx.require("step into existing-keyring", 10);
     ctx.require("step into existing-keyring-over-8KiB", 3);
     ctx.require("step into absent", 1);
